@@ -120,7 +120,7 @@ def evlog_times(ops):
         # every timer operation a handler ISSUED (XCALL lines, written by the process itself) appears once in its event log
         calls = {}
         for c in o.get("calls", []):
-            if c[0] == "XCALL":
+            if c[0] == "XCALL" and c[2] in ("SET", "SETONCE", "CANCEL"):
                 k = "TC" if c[2] == "CANCEL" else "TS"
                 calls[(int(c[1]), k)] = calls.get((int(c[1]), k), 0) + 1
         if o.get("calls"):
@@ -130,6 +130,63 @@ def evlog_times(ops):
                     logged[(p, k)] = logged.get((p, k), 0) + 1
             if logged != calls:
                 fails.append(("C17:evlog_actions", "timer operations issued by the handlers %s vs entries in the event logs %s" % (calls, logged)))
+    return fails
+
+
+def action_order(ops):
+    """C17 / C06: the actions of one handler invocation appear in the trace - and so are created as events - in the
+    order the handler ISSUED them (XCALL lines written by the process itself).  Ignored calls (set_timer_once on a
+    pending name, cancel of a name that is not pending, sends dropped... are still logged) leave no entry, so the
+    logged kinds must be a subsequence of the issued kinds, in order."""
+    from collections import deque
+    fails = []
+    invs = {}
+    kind_of = {"SEND": "MessageSent", "LOCAL": "LocalMessageSent", "SET": "TimerSet", "SETONCE": "TimerSet",
+               "CANCEL": "TimerCancelled"}
+    for o in ops:
+        cur = None
+        for c in o.get("calls", []):
+            if c[0] == "XINV":
+                cur = []
+                invs.setdefault(int(c[1]), deque()).append(cur)
+            elif cur is not None:
+                cur.append(kind_of.get(c[2]))
+        open_inv = {}       # proc -> (issued kinds, position reached)
+        for (kind, f, m) in o["logs"]:
+            trig = None
+            if kind == "MessageReceived":
+                trig = f[5]
+            elif kind == "LocalMessageReceived":
+                trig = f[2]
+            elif kind == "TimerFired":
+                trig = f[4]
+            if trig is not None:
+                q = invs.get(trig)
+                if q:
+                    open_inv[trig] = [q.popleft(), 0]
+                else:
+                    open_inv.pop(trig, None)
+                continue
+            actor = None
+            if kind == "MessageSent":
+                actor = f[3]
+            elif kind == "LocalMessageSent":
+                actor = f[2]
+            elif kind in ("TimerSet", "TimerCancelled"):
+                actor = f[4]
+            if actor is None or actor not in open_inv:
+                continue
+            issued, pos = open_inv[actor]
+            while pos < len(issued) and issued[pos] != kind:
+                pos += 1
+            if pos >= len(issued):
+                fails.append(("C17:action_order", "process %d: the trace shows %s at a position where the handler had not issued it "
+                              "(issued, in order: %s)" % (actor, kind, issued)))
+                fails.append(("C06:creation_order", "process %d: the events of one handler call were created in another order "
+                              "than the handler issued them (issued: %s; %s out of place): ties at equal times are then not "
+                              "handled in creation order" % (actor, issued, kind)))
+                return fails
+            open_inv[actor][1] = pos + 1
     return fails
 
 
@@ -176,6 +233,8 @@ def api_timer_contract(ops):
                 if not q:
                     continue          # a process that does not log its calls (Python twin)
                 for c in q.popleft():
+                    if c[2] not in ("SET", "SETONCE", "CANCEL"):
+                        continue
                     nm = int(c[3])
                     if c[2] == "SET":
                         pending[(proc, nm)] = True
@@ -204,6 +263,8 @@ def monitor(sc, impl_lines):
     crash_events = []     # (position, node)
     unread = {}           # proc -> [msgs]  (C17 outbox)
     proc_start = {}       # proc -> counters since ProcessStarted
+    proc_node = {}        # proc -> node (from ProcessStarted)
+    gone = set()          # processes whose node crashed and that were not started again
     last_time = None
     pos = 0               # global position in the trace
     nc = 0
@@ -256,16 +317,24 @@ def monitor(sc, impl_lines):
             if last_time is not None and bits_f64(t) < bits_f64(last_time):
                 fail("C06:time_monotone", "trace time goes back at %s (op %d)" % (kind, li))
             last_time = t
+            # ---- C08: recovery starts clean - a process of a crashed node exists again only once it is started again
+            hp = {"MessageReceived": 5, "LocalMessageReceived": 2, "TimerFired": 4}.get(kind)
+            if hp is not None and f[hp] in gone and proc_node.get(f[hp]) not in crashed:
+                fail("C08:recovery_clean", "process %d handled %s after its node crashed and recovered although it was never "
+                     "started again: it lives on with its state from before the crash" % (f[hp], kind))
             if kind == "NodeCrashed":
                 crashed[f[1]] = pos
                 crash_events.append((pos, f[1]))
                 in_crash_block = True
+                gone.update(p_ for p_, n_ in proc_node.items() if n_ == f[1])
                 continue
             elif kind == "NodeRecovered":
                 crashed.pop(f[1], None)
             elif kind == "ProcessStarted":
                 proc_start[f[2]] = {"sent": 0, "recv": 0}
                 unread[f[2]] = []
+                proc_node[f[2]] = f[1]
+                gone.discard(f[2])
             elif kind == "MessageSent":
                 mid, sn, sp, dn, dp = f[1], f[2], f[3], f[4], f[5]
                 if mid != nsent:
@@ -440,11 +509,12 @@ def monitor(sc, impl_lines):
         if final_is_drain and not crash_events and not s["drop_at_send"] and s["recv"] == 0:
             fail("C05:delivered", "message %d was neither dropped nor delivered although the queue was drained and no node crashed" % mid)
     fails.extend(api_timer_contract(ops))
+    fails.extend(action_order(ops))
     fails.extend(evlog_times(ops))
     return fails
 
 
 CLAUSES = ["C05:sent_before", "C05:link_enabled", "C05:payload", "C05:copies", "C05:drop_rate", "C05:same_node",
            "C05:delivered", "C06:time_monotone", "C06:arrival", "C06:timer_exact", "C06:step", "C06:steps", "C06:duration",
-           "C06:until_no_events", "C06:until_local", "C07:timer_contract", "C07:api_contract", "C17:evlog_times", "C17:evlog_actions", "C08:inflight_cancelled",
+           "C06:until_no_events", "C06:until_local", "C07:timer_contract", "C07:api_contract", "C17:evlog_times", "C17:evlog_actions", "C17:action_order", "C06:creation_order", "C08:recovery_clean", "C08:inflight_cancelled",
            "C08:silent_while_crashed", "C17:ids", "C17:one_fate", "C17:counters", "C17:read_local"]
